@@ -525,3 +525,44 @@ pub fn t_liq_prepaid(p: P) -> impl Fn() {
         r.step(Op::Liquidate { by: LIQ, trader: CAROL, limit: Uint128::zero() });
     }
 }
+
+/// T-liq-profitable: a position that is in profit at the vAMM price yet under-margined because of
+/// a large funding debt (oracle far from the vAMM price at settlement), liquidated with a
+/// symbolic partial-liquidation ratio up to 100%
+pub fn t_liq_profitable(p: P) -> impl Fn() {
+    move || {
+        let mut cfg = p.cfg();
+        let d = cfg.d();
+        cfg.init_ratio = Uint128::new(d / 10);
+        cfg.maint_ratio = Uint128::new(d / 20);
+        cfg.liq_fee = ratio("liq_fee", d, d / 100);
+        cfg.partial_ratio = ratio("partial_ratio", d, d);
+        let mut r = p.run_cfg(cfg);
+        p.prefix_mode();
+        let l = Uint128::new(2 * d);
+        let m1 = Uint128::new(20 * d);
+        let f = funds_for(&r, &p, m1, l);
+        if !r.step(Op::Open { who: ALICE, side: p.side.clone(), margin: m1, lev: l, limit: Uint128::zero(), funds: f }).tx.ok {
+            return;
+        }
+        r.w.next_block(15);
+        // bob trades the same way: alice is in profit
+        let m2 = Uint128::new(100 * d);
+        let f = funds_for(&r, &p, m2, l);
+        if !r.step(Op::Open { who: BOB, side: p.side.clone(), margin: m2, lev: l, limit: Uint128::zero(), funds: f }).tx.ok {
+            return;
+        }
+        r.w.next_block(86_400);
+        // the oracle is far on the side that makes alice's side pay
+        let seed_price = if p.side == Side::Buy { 3 * d } else { 40 * d };
+        let price = crate::sx::var("oracle", 1, 1_000 * d, seed_price);
+        let now = r.w.now();
+        r.w.set_oracle(price, now);
+        if !r.step(Op::PayFunding { by: EVE }).tx.ok {
+            return;
+        }
+        r.w.next_block(1000);
+        symrt::set_full(true);
+        r.step(Op::Liquidate { by: LIQ, trader: ALICE, limit: Uint128::zero() });
+    }
+}
